@@ -16,8 +16,9 @@
  *                  dr_gen_pi_dag and read back
  * Record-time settings that leave the very same bytes in T/E/S as an earlier setting of the same execution are not
  * pushed through the file checks again (everything downstream is a function of those bytes).
- * 2..4 file names: first timing only; no-steal schedule x all record-time settings, single-steal schedules x the two
- * extreme settings (nothing contracted / everything).
+ * 2..4 file names: on the serial execution (W = 1, first timing) under every record-time setting.
+ * Converted DAGs are validated / replayed / totalled for every input, and additionally written to a file and read
+ * back when the input is the uncontracted recording (the input every other one is a contraction of).
  */
 #include "dag_sim.h"
 
@@ -168,19 +169,6 @@ static void chronological(dr_pi_dag * G, const char * which, const char * extra)
 #undef BAD
 }
 
-static unsigned long long fnv(unsigned long long h, const void * p, size_t n) {
-  const unsigned char * b = p; size_t i = 0;
-  for (; i + 8 <= n; i += 8) { unsigned long long w; memcpy(&w, b + i, 8); h = (h ^ w) * 1099511628211ULL; h ^= h >> 29; }
-  for (; i < n; i++) { h ^= b[i]; h *= 1099511628211ULL; }
-  return h;
-}
-static unsigned long long pi_hash(const dr_pi_dag * G) {
-  unsigned long long h = 1469598103934665603ULL;
-  h = fnv(h, &G->n, sizeof G->n); h = fnv(h, &G->m, sizeof G->m); h = fnv(h, &G->num_workers, sizeof G->num_workers);
-  h = fnv(h, G->T, sizeof(dr_pi_dag_node) * G->n); h = fnv(h, G->E, sizeof(dr_pi_dag_edge) * G->m);
-  h = fnv(h, &G->S->n, sizeof G->S->n); h = fnv(h, G->S->I, sizeof(long) * G->S->n); h = fnv(h, G->S->C, G->S->sz - sizeof(dr_pi_string_table) - sizeof(long) * G->S->n);
-  return h;
-}
 static int same_strings(const dr_pi_dag * A, const dr_pi_dag * B) {
   if (A->S->n != B->S->n || A->S->sz != B->S->sz) return 0;
   for (long i = 0; i < A->S->n; i++) if (A->S->I[i] != B->S->I[i] || strcmp(pi_str(A, i), pi_str(B, i))) return 0;
@@ -253,14 +241,11 @@ static void free_pi(dr_pi_dag * G) { free(G->T); free(G->E); free(G->S); }
 
 static const char * const AUX_NAMES[4] = { "cases whose DAG bytes equal an earlier setting's (not re-checked)", "distinct DAGs pushed through the file checks", "conversions", "converted DAGs written and read back" };
 static unsigned long long SEEN[128]; static int NSEEN;
-/* More than one file name: with the first timing only; on the no-steal schedule under every record-time setting
-   (which names survive contraction), on single-steal schedules under the two extreme settings. */
+/* More than one file name: on the serial execution (W = 1) with the first timing, under every record-time setting
+   (which names survive which contraction).  The string table does not depend on who ran what. */
 static int component_skip(int nf, int oi) {
-  if (nf == 1) return 0;
-  if (CASE.tmi != 0 || CASE.s->nsteal > 1) return 1;
-  if (CASE.s->nsteal == 0) return 0;
-  const ropt_t * o = &OPTS[oi];
-  return !(o->cc == 0 && o->nct == 0 && o->umin == 0 && (o->cmax == 0 || o->cmax == CM_INF));
+  (void)oi;
+  return nf > 1 && !(CASE.tmi == 0 && CASE.W == 1);
 }
 
 static void component_case(void) {
@@ -324,7 +309,7 @@ static void component_case(void) {
 	for (int k = 0; k < 4; k++) if (t2.nodes[k] != t1.nodes[k]) { snprintf(cls, sizeof cls, "shrink-totals:node:%s", NKN[k]); found(cls, extra, "%s nodes: %ld after conversion, %ld before", NKN[k], t2.nodes[k], t1.nodes[k]); }
 	for (int k = 0; k < EK_MAX; k++) if (t2.edges[k] != t1.edges[k]) { snprintf(cls, sizeof cls, "shrink-totals:edge:%s", EKN[k]); found(cls, extra, "%s edges (explicit + summarised): %ld after conversion, %ld before", EKN[k], t2.edges[k], t1.edges[k]); }
 	chronological(G2, "converted", extra);
-	{
+	if (CASE.oi == 0) {
 	  char fn2[260]; size_t fsz2; snprintf(fn2, sizeof fn2, "%s-conv", SCRATCH);
 	  co.dag_file_prefix = fn2; co.dag_file_yes = 1; dr_opts_init(&co);
 	  dr_gen_pi_dag(G2);
